@@ -233,7 +233,7 @@ fn test_for(route: Route, src: &str, a: &RV, b: &RV, exp: &Expect, _x0: Option<&
 }
 
 pub fn run(cfg: &Cfg) -> Report {
-    let pool = pool();
+    let pool = if cfg.tier == Tier::Thorough { big_pool() } else { pool() };
     let n = pool.len();
     // every tree is precompiled once as a sanity check that the sources are well-formed
     for op in BINOPS {
@@ -276,7 +276,6 @@ pub fn run(cfg: &Cfg) -> Report {
         ("an op-assign was refused with a type error".to_string(), stats.get("op-assign/refused-Some(Type)") > 0),
         ("an op-assign was refused with an arithmetic error".to_string(), stats.get("op-assign/refused-Some(Arith)") > 0),
     ];
-    let _ = cfg;
     Report {
         property: ID,
         level: "exploration",
